@@ -36,7 +36,7 @@ def word_loop(b, o):
 def classify_atom(a, word):
     """name an atom of the classifier; word = nosite'd expression of the current chunk"""
     a = nosite(a)
-    if a[0] == "bin" and a[1] in ("Le", "Lt", "Ge", "Gt", "Eq", "Ne") and not any(s[0] == "call" and s[1].split("::")[-1] == "from_elem" for s in walk(a)):
+    if ipe.is_cmp_atom(a) and not any(s[0] == "call" and s[1].split("::")[-1] == "from_elem" for s in walk(a)):
         if any(s[0] == "call" and s[1].split("::")[-1] == "from_ne_bytes" for s in walk(a)):
             return "cmp"
     if a[0] == "call" and a[1].endswith("MappingInfo::contains_address"):
@@ -404,6 +404,8 @@ def rule_zero_below_sp(ctx):
 
 
 def run(ctx):
+    from rules import c20
+    c20.rule_offset_relative(ctx, rule="C12/offset-relative-to-copy")
     rule_classifier(ctx)
     rule_cache(ctx)
     rule_bitmap(ctx)
